@@ -134,9 +134,14 @@ def run_model_group(g, tier, seed):
             # packet kinds, how many completions, which outcomes, which causes) and the quota is spread over the
             # groups round-robin, so that rare combinations are replayed as surely as common ones
             classes = {}
+            seen_lines = set()
             with open(r["out"], errors="replace") as f:
                 for ln, line in enumerate(f):
                     if line.startswith('<<"REPLAY", "none"'):
+                        hl = hashlib.sha256(line.encode()).digest()[:10]
+                        if hl in seen_lines:       # the same command history reached through another scheduling choice
+                            continue
+                        seen_lines.add(hl)
                         key = tuple(sorted(WORDS.findall(line[18:])))
                         classes.setdefault(key, []).append(ln)
             for key in classes:
